@@ -276,7 +276,7 @@ def delta_encode(values, bits=64, junk_unused_widths=False, rng=None, block=128,
         for m in range(nmini):
             part = adj[m * per:(m + 1) * per]
             if not part:
-                widths.append(rng.randrange(0, bits + 1) if (junk_unused_widths and rng) else 0)
+                widths.append(rng.choice([rng.randrange(256), 255, 65, 64, 33, rng.randrange(0, bits + 1)]) if (junk_unused_widths and rng) else 0)   # "readers must accept arbitrary values"
                 minis.append(None)
                 continue
             w = max(part).bit_length()
